@@ -315,7 +315,7 @@ def coerceListValue (rec : Ty → JV → R) (t : Ty) (v : JV) : R :=
     match mapE (rec t) l with
     | .error e => .error e
     | .ok r => .ok (.list r)
-  | v =>
+  | _ =>
     match rec t v with
     | .error e => .error e
     | .ok x => .ok (.list [x])
@@ -386,7 +386,7 @@ def vfaCore (reg : Reg) (rec : Ty → Lit → R) (t : Ty) (l : Lit) : R :=
         match mapE (rec t') items with
         | .error e => .error e
         | .ok r => .ok (.list r)
-      | l =>
+      | _ =>
         match rec t' l with
         | .error e => .error e
         | .ok x => .ok (.list [x])
@@ -410,7 +410,7 @@ def valueFromAst (reg : Reg) (vars : Option (List (String × PV))) : Nat → Ty 
   | fuel + 1, ty, l =>
     match l with
     | .var x => extractVariable vars ty x
-    | l =>
+    | _ =>
       if ty.isNonNull && l.isNull then .error .coercion
       else vfaCore reg (valueFromAst reg vars fuel) (stripNN ty) l
 
